@@ -395,13 +395,59 @@ func clipStr(s string, n int) string {
 	return s
 }
 
+// c05Deep: the text of a point inside 255 .. 70,000 nested collections (written
+// out directly; the encoder needs minutes for such a value, the parser a fraction of
+// a second) parses to exactly that nesting, in every dimensionality.
+func c05Deep(c *fw.Ctx, idx int) {
+	depths := []int{255, 256, 257, 4095, 4096, 32767, 32768, 65535, 65536, 65537, 70000, 131072}
+	d := depths[idx%len(depths)]
+	suffix, layout, coords := [][3]string{{"", "XY", "1 2"}, {" Z", "XYZ", "1 2 3"}, {" M", "XYM", "1 2 3"}, {" ZM", "XYZM", "1 2 3 4"}}[(idx/len(depths))%4][0], "", ""
+	sel := [][3]string{{"", "XY", "1 2"}, {" Z", "XYZ", "1 2 3"}, {" M", "XYM", "1 2 3"}, {" ZM", "XYZM", "1 2 3 4"}}[(idx/len(depths))%4]
+	suffix, layout, coords = sel[0], sel[1], sel[2]
+	text := strings.Repeat("GEOMETRYCOLLECTION"+suffix+" (", d) + "POINT" + suffix + " (" + coords + ")" + strings.Repeat(")", d)
+	c.SetInput(map[string]any{"text": fmt.Sprintf("POINT%s (%s) inside %d nested GEOMETRYCOLLECTION%s ( ... )", suffix, coords, d, suffix)})
+	var t geom.T
+	var err error
+	if c.Guard("panic", func() { t, err = wkt.Unmarshal(text) }) {
+		return
+	}
+	c.Eval(1)
+	c.Count("deeply_nested_texts_parsed")
+	c.Distinct(fmt.Sprintf("deep/%d/%s", d, layout))
+	if err != nil {
+		c.Fail("unmarshal-error", "a point inside %d nested collections was rejected: %v", d, err)
+		return
+	}
+	depth := 0
+	x := t
+	for {
+		gc, ok := x.(*geom.GeometryCollection)
+		if !ok {
+			break
+		}
+		if gc.NumGeoms() != 1 {
+			c.Fail("not-equal", "collection at depth %d holds %d members, the text has 1", depth, gc.NumGeoms())
+			return
+		}
+		depth++
+		x = gc.Geom(0)
+	}
+	p, ok := x.(*geom.Point)
+	if depth != d || !ok || p.Layout().String() != layout || len(p.FlatCoords()) != len(strings.Fields(coords)) || p.FlatCoords()[0] != 1 || p.FlatCoords()[1] != 2 {
+		c.Fail("not-equal", "text nests %d collections around POINT%s (%s); parsed: %d collections around %T %v", d, suffix, coords, depth, x, x)
+	}
+}
+
 func init() {
 	fw.Register(&fw.Monitor{
-		ID:      "C05",
-		Title:   "WKT output round-trips and reads the same in an independent WKT reader",
-		Rule:    "models in the property's domain (finite ordinates incl. -0, 5e-324, 1.8e308; one uniform layout in XY/XYZ/XYM/XYZM; linestrings of 0 or >=2 points; closed rings of >=4 points; EMPTY members anywhere; collections nested to depth 4 carrying their layout): wkt.Marshal text must be accepted by wkt.Unmarshal and by the independent reader (numbers converted through exact rational arithmetic) and both must equal the model bit for bit; 8 spellings per model over {mixed case, whitespace/newlines/tabs, bare/parenthesised multipoint members, attached/detached suffix, exponent numbers} must parse to the same model. distinct_nontrivial = distinct non-empty shape signatures",
-		Assume:  []string{"reference WKT reader and speller in harness/ref, pinned by OGC SFA examples (go test ./ref)"},
-		Classes: []fw.Class{{Name: "roundtrip", Quick: 40000, Thorough: 1000000, Run: c05Run}},
+		ID:     "C05",
+		Title:  "WKT output round-trips and reads the same in an independent WKT reader",
+		Rule:   "models in the property's domain (finite ordinates incl. -0, 5e-324, 1.8e308; one uniform layout in XY/XYZ/XYM/XYZM; linestrings of 0 or >=2 points; closed rings of >=4 points; EMPTY members anywhere; collections nested to depth 4 carrying their layout): wkt.Marshal text must be accepted by wkt.Unmarshal and by the independent reader (numbers converted through exact rational arithmetic) and both must equal the model bit for bit; 8 spellings per model over {mixed case, whitespace/newlines/tabs, bare/parenthesised multipoint members, attached/detached suffix, exponent numbers} must parse to the same model. distinct_nontrivial = distinct non-empty shape signatures",
+		Assume: []string{"reference WKT reader and speller in harness/ref, pinned by OGC SFA examples (go test ./ref)"},
+		Classes: []fw.Class{
+			{Name: "roundtrip", Quick: 40000, Thorough: 1000000, Run: c05Run},
+			{Name: "deep-texts", Quick: 48, Thorough: 48, Chunk: 2, Run: c05Deep, Exhaustive: "a point inside 255..131,072 nested collections, 12 depths x 4 dimensionalities"},
+		},
 		Require: []string{"with_EMPTY_member", "with_EMPTY_member_before_nonempty", "kind_GeometryCollection", "kind_MultiPolygon", "spelling_mixed-case", "spelling_newline-or-tab", "spelling_bare-multipoint-member", "spelling_parenthesised-multipoint-member", "spelling_detached-suffix", "spelling_attached-suffix", "spelling_exponent"},
 	})
 }
